@@ -141,6 +141,8 @@ impl<'a> Sink for RecSink<'a> {
     }
 }
 
+/// The sink reaches the searcher either as `&mut S` or inside a `Box<dyn Sink>` (both are public ways of passing one;
+/// each goes through its own forwarding impl in sink.rs): decided per scenario, deterministically.
 fn do_search<M: Matcher>(
     matcher: M,
     searcher: &mut Searcher,
@@ -148,6 +150,23 @@ fn do_search<M: Matcher>(
     inp: &[u8],
     rdr: &mut ScriptedReader<'_>,
     sink: &mut RecSink<'_>,
+) -> Result<(), io::Error> {
+    let boxed = (inp.len() + sink.stop_at + sink.err_at + rdr.reads.len()) % 2 == 1;
+    if boxed {
+        let b: Box<dyn Sink<Error = io::Error> + '_> = Box::new(sink);
+        do_search_with(matcher, searcher, strat, inp, rdr, b)
+    } else {
+        do_search_with(matcher, searcher, strat, inp, rdr, sink)
+    }
+}
+
+fn do_search_with<M: Matcher, S: Sink<Error = io::Error>>(
+    matcher: M,
+    searcher: &mut Searcher,
+    strat: &str,
+    inp: &[u8],
+    rdr: &mut ScriptedReader<'_>,
+    sink: S,
 ) -> Result<(), io::Error> {
     match strat {
         "reader" => searcher.search_reader(matcher, rdr, sink),
